@@ -719,6 +719,7 @@ class RTCSctpTransport(AsyncIOEventEmitter):
         # reconfiguration
         self._reconfig_queue: list[int] = []
         self._reconfig_request: Optional[StreamResetOutgoingParam] = None
+        self._reconfig_handle: Optional[asyncio.TimerHandle] = None
         self._reconfig_request_seq = self._local_tsn
         self._reconfig_response_seq = 0
 
@@ -1354,6 +1355,15 @@ class RTCSctpTransport(AsyncIOEventEmitter):
         self.__log_debug("<< %s", param)
 
         if isinstance(param, StreamResetOutgoingParam):
+            if param.request_sequence == self._reconfig_response_seq:
+                # retransmitted request, our response was lost: repeat it
+                await self._send_reconfig_param(
+                    StreamResetResponseParam(
+                        response_sequence=param.request_sequence, result=1
+                    )
+                )
+                return
+
             # mark closed inbound streams
             for stream_id in param.streams:
                 self._inbound_streams.pop(stream_id, None)
@@ -1392,6 +1402,7 @@ class RTCSctpTransport(AsyncIOEventEmitter):
                     self._data_channel_closed(stream_id)
 
                 self._reconfig_request = None
+                self._reconfig_timer_cancel()
                 await self._transmit_reconfig()
 
     async def _send(
@@ -1529,6 +1540,7 @@ class RTCSctpTransport(AsyncIOEventEmitter):
             self._t1_cancel()
             self._t2_cancel()
             self._t3_cancel()
+            self._reconfig_timer_cancel()
             self.__state = "closed"
 
             # close data channels
@@ -1597,6 +1609,27 @@ class RTCSctpTransport(AsyncIOEventEmitter):
         self._t2_failures = 0
         self.__log_debug("- T2(%s) start", chunk_type(self._t2_chunk))
         self._t2_handle = self._loop.call_later(self._rto, self._t2_expired)
+
+    def _reconfig_timer_cancel(self) -> None:
+        if self._reconfig_handle is not None:
+            self._reconfig_handle.cancel()
+            self._reconfig_handle = None
+
+    def _reconfig_timer_expired(self) -> None:
+        # the request or its response was lost: send the request again
+        self._reconfig_handle = None
+        if (
+            self._reconfig_request is not None
+            and self._association_state == self.State.ESTABLISHED
+        ):
+            asyncio.ensure_future(self._send_reconfig_param(self._reconfig_request))
+            self._reconfig_timer_start()
+
+    def _reconfig_timer_start(self) -> None:
+        self._reconfig_timer_cancel()
+        self._reconfig_handle = self._loop.call_later(
+            self._rto, self._reconfig_timer_expired
+        )
 
     def _t3_expired(self) -> None:
         self._t3_handle = None
@@ -1710,6 +1743,7 @@ class RTCSctpTransport(AsyncIOEventEmitter):
             self._reconfig_request_seq = tsn_plus_one(self._reconfig_request_seq)
 
             await self._send_reconfig_param(param)
+            self._reconfig_timer_start()
 
     def _update_advanced_peer_ack_point(self) -> None:
         """
